@@ -852,7 +852,7 @@ def check(run) -> None:
     engine_base = base_res["engine"]
     opts = {"wd": wd, "seed": run.seed, "engine_base": engine_base,
             "cli_frac": 0.03 if q else 1.0, "cli_single_frac": 0.5 if q else 1.0,
-            "eng_single_frac": 1.0, "eng_pair_frac": 0.05 if q else 0.35}
+            "eng_single_frac": 1.0, "eng_pair_frac": 0.05 if q else 0.2}
     # phase 1: empty / single-fault / corner vectors (their violations define the per-element classes);
     # phase 2: pairwise vectors, a violation already shown by one of the pair's elements alone is the same class
     cases.sort(key=lambda c: (len(c["v"]), c["v"]))
